@@ -21,6 +21,32 @@ ASSUMPTIONS = ["'mismatch keeps one sign over the whole window' is sampled on a 
                "parameter points closer than 2% in velocity to a solution-type threshold are excluded as the property's margin"]
 
 
+def _manager_scan(rep: C.Report, tier: str):
+    """WallGoManager.wallSpeedLTE() over a scan of nucleation temperatures on ONE manager: after every setup the value must be the LTE
+    velocity of the CURRENT thermodynamics (entropy condition judged on the current matching)."""
+    import manager_common as MC
+    m = MC.new_manager(20, 1e-3)
+    h0 = m.hydrodynamics
+    for Tn in ((1.15, 1.12, 1.18) if tier == "quick" else (1.15, 1.12, 1.18, 1.15, 1.10, 1.2)):
+        MC.setup(m, Tn)
+        v = float(m.wallSpeedLTE())
+        h = m.hydrodynamics
+        want = float(h.findvwLTE())
+        rep.case(key=("manager-LTE-scan", Tn))
+        rep.count("manager LTE scan")
+        info = {"model": "toy1 via WallGoManager, setupThermodynamicsHydrodynamics repeated on one manager", "Tn": Tn, "wallSpeedLTE": v,
+                "findvwLTE_of_current_hydrodynamics": want}
+        bad = abs(v - want) > 1e-9
+        if 0 < v < 1:
+            vp, vm, Tp, Tm = map(float, h.matchDeflagOrHyb(v))
+            ent = Tp * math.sqrt(HC.gsq(vp)) / (Tm * math.sqrt(HC.gsq(vm))) - 1
+            info["entropy_mismatch"] = ent
+            bad = bad or abs(ent) > 1e-5
+        if bad:
+            rep.violation("WallGoManager.wallSpeedLTE() is not the LTE velocity of the current thermodynamics (entropy flux not conserved there)",
+                          info, finding_key="C05:manager-scan")
+
+
 def search(rep: C.Report, tier: str, broken):
     import models
     r = C.rng("C05")
@@ -28,6 +54,7 @@ def search(rep: C.Report, tier: str, broken):
     # add template points designed to hit the sentinels
     fams += [("template-weak:alpha small", models.BagEOS(ap=3.0, am=2.97, eps=0.002, Tn=1.0)),
              ("template-strong", models.BagEOS(ap=3.0, am=1.2, eps=0.8, Tn=1.0))]
+    _manager_scan(rep, tier)
     for name, th in fams:
         try:
             h = HC.make_hydro(th)
